@@ -2544,6 +2544,28 @@ class Env(cabc.MutableMapping):
             self._d["PATH"] = EnvPath(PATH_DEFAULT)
         self._detyped = None
 
+    # The result of detype() depends on the calling thread (swap() values are
+    # thread-local), so the cache is kept per thread.  Any change, in any
+    # thread, bumps a generation counter that invalidates all of them.
+    _detyped_gen = 0
+
+    @property
+    def _detyped(self):
+        local = self.__dict__.get("_detyped_local")
+        cached = None if local is None else local.__dict__.get("cache")
+        if cached is not None and cached[0] == self._detyped_gen:
+            return cached[1]
+        return None
+
+    @_detyped.setter
+    def _detyped(self, value):
+        if "_detyped_local" not in self.__dict__:
+            self._detyped_local = threading.local()
+        if value is None:
+            self._detyped_gen += 1
+        else:
+            self._detyped_local.cache = (self._detyped_gen, value)
+
     def get_detyped(self, key: str):
         detyped = self.detype()
         return detyped.get(key)
@@ -2554,8 +2576,10 @@ class Env(cabc.MutableMapping):
         Note! If env variable wasn't explicitly set (e.g. the value has default value in ``Xettings``)
         it will be not in this list.
         """
-        if self._detyped is not None and not self._overlay_stack:
-            return self._detyped
+        gen = self._detyped_gen
+        cached = self._detyped
+        if cached is not None and not self._overlay_stack:
+            return cached
         ctx = {}
         items = dict(self._d)
         # Apply overlay values on top (most recent overlay wins)
@@ -2581,7 +2605,8 @@ class Env(cabc.MutableMapping):
                 continue
             ctx[key] = deval
         if not self._overlay_stack:
-            self._detyped = ctx
+            # valid for the state this thread saw when it started reading
+            self._detyped_local.cache = (gen, ctx)
         return ctx
 
     def detype_all(self):
